@@ -5,6 +5,19 @@ import json
 from . import runner
 
 
+def _jsonable(x):
+    import numpy as np
+    if isinstance(x, dict):
+        return {str(k): _jsonable(v) for k, v in x.items()}
+    if isinstance(x, (list, tuple)):
+        return [_jsonable(v) for v in x]
+    if isinstance(x, np.ndarray):
+        return x.tolist()
+    if isinstance(x, (np.floating, np.integer)):
+        return x.item()
+    return x
+
+
 def run_family(chk, name, cases, case_fn, site, rule, nontrivial=lambda case: True, sample_of=lambda case: case, timeout=600):
     """cases: list of dict(tag=..., features=..., ...).  case_fn(case) -> dict(status, fails=[...]).
     Failing cases are reported through chk.report_failure (known findings are attributed there)."""
@@ -32,6 +45,9 @@ def run_family(chk, name, cases, case_fn, site, rule, nontrivial=lambda case: Tr
                            observed=f.get("observed"), expected=f.get("expected"),
                            input=dict(case=sample_of(case), detail={k: v for k, v in f.items()
                                                                    if k not in ("clause", "observed", "expected")}),
+                           rerun=dict(kind="case", module=case_fn.__module__ if case_fn.__module__ != "__main__" else
+                                      "checks." + __import__("os").path.splitext(__import__("os").path.basename(__import__("sys").argv[0]))[0],
+                                      function=case_fn.__name__, case=_jsonable(case)),
                            features=dict(case.get("features", {}), tag=case.get("tag"), base=str(case.get("tag")).split("/")[0], **{k: case[k] for k in ("vec", "backend", "solver") if k in case}))
                 chk.report_failure(rec)
     chk.add_bounded(name, n_eval, len(distinct), rule, [sample_of(c) for c in cases[:2]])
